@@ -281,7 +281,7 @@ Section Arrival.
         eexists. split; [reflexivity|]. cbn.
         rewrite filter_fresh by exact Hfresh. auto.
       + (* FMap *)
-        destruct rec; [destruct want_value; discriminate|].
+        destruct rec; [destruct key, want_value; discriminate|].
         rewrite recv_scalar_map, Hc.
         destruct want_value.
         * destruct key as [k|]; [|discriminate]. destruct (hashable k) eqn:Hh; [|discriminate].
@@ -290,25 +290,330 @@ Section Arrival.
           rewrite notify_marker_nopending by exact Hp.
           eexists. split; [reflexivity|]. cbn.
           rewrite filter_fresh by exact Hfresh. auto.
-        * inversion Hput; subst. cbn [map_store rbind].
-          cbn [stack set_stack app tl].
-          rewrite notify_marker_nopending by exact Hp.
-          eexists. split; [reflexivity|]. cbn.
-          rewrite filter_fresh by exact Hfresh. auto.
+        * destruct key; inversion Hput; subst; cbn [map_store rbind];
+            cbn [stack set_stack app tl];
+            rewrite notify_marker_nopending by exact Hp;
+            (eexists; split; [reflexivity|]; cbn;
+             rewrite filter_fresh by exact Hfresh; auto).
     - (* directly *)
       destruct fr; cbn [put] in Hput; try discriminate.
       + rewrite recv_scalar_top, Hc. destruct (tobj st) eqn:Et; [|discriminate].
         inversion Hput; subst. eexists. split; [reflexivity|]. cbn. auto.
       + rewrite recv_scalar_slice, Hc. inversion Hput; subst.
         eexists. split; [reflexivity|]. cbn. auto.
-      + destruct rec; [destruct want_value; discriminate|].
+      + destruct rec; [destruct key, want_value; discriminate|].
         rewrite recv_scalar_map, Hc. destruct want_value.
         * destruct key as [k|]; [|discriminate]. destruct (hashable k) eqn:Hh; [|discriminate].
           inversion Hput; subst. cbn [map_store]. rewrite Hh.
           eexists. split; [reflexivity|]. cbn. auto.
-        * inversion Hput; subst. cbn [map_store].
-          eexists. split; [reflexivity|]. cbn. auto.
+        * destruct key; inversion Hput; subst; cbn [map_store];
+            (eexists; split; [reflexivity|]; cbn; auto).
       + destruct children_mode; [discriminate|]. rewrite recv_scalar_node, Hc.
         inversion Hput; subst. eexists. split; [reflexivity|]. cbn. auto.
   Qed.
 End Arrival.
+
+Section Containers.
+  Variable uc : bytes -> option bytes.
+  Variable tc : bytes -> option (bytes * bytes).
+
+  Lemma bytes_eqb_refl b : bytes_eqb b b = true.
+  Proof. apply bytes_eqb_eq. reflexivity. Qed.
+
+  (* builders that start a container of their own when asked *)
+  Definition plain (fr : frame) : bool :=
+    match fr with
+    | FTop | FSlice _ | FMap _ _ _ _ None | FNode _ _ => true
+    | _ => false
+    end.
+
+  Lemma recv_begin_plain k above fr below st :
+    plain fr = true ->
+    recv_begin uc tc k above fr below st =
+    ROk (set_stack (bump (bump st)) (new_frame k (next st + 1) :: above ++ fr :: below)).
+  Proof.
+    intro H. destruct fr; try discriminate; try (destruct below; reflexivity).
+    destruct rec; [discriminate|]. destruct below; reflexivity.
+  Qed.
+
+  Lemma recv_begin_marker k above id isc child below st :
+    recv_begin uc tc k above (FMarker id isc) (child :: below) st =
+    recv_begin uc tc k (above ++ [FMarker id true]) child below st.
+  Proof. reflexivity. Qed.
+
+  Definition begin_kind (e : event) : option ckind :=
+    match e with EList => Some KList | EMap => Some KMap | ENode => Some KNode | _ => None end.
+
+  Lemma begin_container e k mk fr r st :
+    begin_kind e = Some k ->
+    stack st = mkframes mk false ++ fr :: r ->
+    plain fr = true ->
+    exists st', step uc tc st e = ROk st' /\
+                stack st' = new_frame k (next st + 1) :: mkframes mk true ++ fr :: r /\
+                tobj st' = tobj st /\ marked st' = marked st /\ pending st' = pending st.
+  Proof.
+    intros Hk Hst Hpl.
+    assert (Hstep : step uc tc st e =
+                    match stack st with fr :: below => recv_begin uc tc k [] fr below st | [] => RPanic st end).
+    { destruct e; try discriminate; inversion Hk; subst; reflexivity. }
+    rewrite Hstep, Hst. destruct mk as [id|]; cbn [mkframes app].
+    - rewrite recv_begin_marker, recv_begin_plain by exact Hpl.
+      eexists. split; [reflexivity|]. cbn. auto.
+    - rewrite recv_begin_plain by exact Hpl. eexists. split; [reflexivity|]. cbn. auto.
+  Qed.
+
+  (* a finished container handed to the builder below (through its marker, if any) *)
+  Lemma finish_container v mk base st s' t' :
+    stack st = mkframes mk true ++ base ->
+    pending st = [] ->
+    has_hole v = false ->
+    put v true base (tobj st) = Some (s', t') ->
+    (forall id, mk = Some id -> mem_id id (map fst (marked st)) = false) ->
+    exists st', notify_done v st = ROk st' /\ stack st' = s' /\ tobj st' = t' /\
+                marked st' = mkentry mk v ++ marked st /\ pending st' = [].
+  Proof.
+    intros Hst Hp Hh Hput Hfresh. unfold notify_done. rewrite Hst.
+    pose proof (snap_no_hole v Hh) as Hsnap.
+    destruct base as [|fr r]; [destruct mk; discriminate|].
+    destruct mk as [id|]; cbn [mkframes app mkentry length].
+    - specialize (Hfresh id eq_refl).
+      cbn [done_to]. rewrite Hst. cbn [mkframes app].
+      rewrite notify_marker_nopending by exact Hp. cbn [rbind].
+      cbn [marked set_refs lookup_marked]. rewrite bytes_eqb_refl.
+      cbn [stack set_refs tl]. rewrite Hst. cbn [mkframes app tl].
+      rewrite filter_fresh by exact Hfresh.
+      destruct fr; cbn [put] in Hput; try discriminate; cbn [done_to stack set_stack set_refs].
+      + destruct (tobj st) eqn:Et; [|discriminate]. inversion Hput; subst.
+        eexists. split; [reflexivity|]. cbn. auto.
+      + inversion Hput; subst. rewrite Hsnap. eexists. split; [reflexivity|]. cbn. auto.
+      + destruct rec; [destruct key, want_value; discriminate|]. rewrite Hsnap.
+        destruct want_value.
+        * destruct key as [k|]; [|discriminate]. destruct (hashable k) eqn:Hk; [|discriminate].
+          inversion Hput; subst. cbn [map_store]. rewrite Hk.
+          eexists. split; [reflexivity|]. cbn. auto.
+        * destruct key; inversion Hput; subst; cbn [map_store];
+            (eexists; split; [reflexivity|]; cbn; auto).
+      + destruct children_mode; [discriminate|]. inversion Hput; subst. rewrite Hsnap.
+        eexists. split; [reflexivity|]. cbn. auto.
+    - destruct fr; cbn [put] in Hput; try discriminate; cbn [done_to]; rewrite Hst; cbn [mkframes app].
+      + destruct (tobj st) eqn:Et; [|discriminate]. inversion Hput; subst.
+        eexists. split; [reflexivity|]. cbn. auto.
+      + inversion Hput; subst. rewrite Hsnap. eexists. split; [reflexivity|]. cbn. auto.
+      + destruct rec; [destruct key, want_value; discriminate|]. rewrite Hsnap.
+        destruct want_value.
+        * destruct key as [k|]; [|discriminate]. destruct (hashable k) eqn:Hk; [|discriminate].
+          inversion Hput; subst. cbn [map_store]. rewrite Hk.
+          eexists. split; [reflexivity|]. cbn. auto.
+        * destruct key; inversion Hput; subst; cbn [map_store];
+            (eexists; split; [reflexivity|]; cbn; auto).
+      + destruct children_mode; [discriminate|]. inversion Hput; subst. rewrite Hsnap.
+        eexists. split; [reflexivity|]. cbn. auto.
+  Qed.
+
+  (* a reference to a marker that is already complete *)
+  Lemma ref_arrival id v fr r st s' t' :
+    stack st = fr :: r ->
+    lookup_marked id (marked st) = Some v ->
+    has_hole v = false ->
+    (match fr with FTop => False | _ => True end) ->
+    put v false (fr :: r) (tobj st) = Some (s', t') ->
+    (match fr with FMap _ _ _ false _ => False | _ => True end) ->
+    exists st', step uc tc st (ERefLocal id) = ROk st' /\ stack st' = s' /\ tobj st' = t' /\
+                marked st' = marked st /\ pending st' = pending st.
+  Proof.
+    intros Hst Hl Hh Hnt Hput Hnk. cbn [step]. rewrite Hst. unfold recv_ref.
+    pose proof (snap_no_hole v Hh) as Hsnap.
+    destruct fr; cbn [put] in Hput; try discriminate; try contradiction.
+    - inversion Hput; subst. cbn [send_key marked bump]. rewrite Hl, Hsnap.
+      eexists. split; [reflexivity|]. cbn. auto.
+    - destruct rec; [destruct key, want_value; discriminate|].
+      destruct want_value; [|contradiction].
+      destruct key as [k|]; [|discriminate]. destruct (hashable k) eqn:Hk; [|discriminate].
+      inversion Hput; subst. cbn [send_key marked bump]. rewrite Hl, Hk, Hsnap.
+      eexists. split; [reflexivity|]. cbn. auto.
+    - destruct children_mode; [discriminate|]. inversion Hput; subst.
+      cbn [send_key marked bump]. rewrite Hl, Hsnap.
+      eexists. split; [reflexivity|]. cbn. auto.
+  Qed.
+End Containers.
+
+(* ------------------------------------------------------------------ *)
+(* Leaves of the fragment                                               *)
+(* ------------------------------------------------------------------ *)
+
+(* values that may be map keys in the fragment: comparable, compared by content *)
+Definition keyval (x : uval) : bool :=
+  match x with
+  | UBool _ | UInt _ | UUint _ | UStr _ | UUid _ | UCTime _ => true
+  | UTime i o => bytes_eqb i o
+  | _ => false
+  end.
+
+Lemma keyval_hashable x : keyval x = true -> hashable x = true.
+Proof. destruct x; cbn; congruence. Qed.
+
+Lemma keyval_no_hole x : keyval x = true -> has_hole x = false.
+Proof. destruct x; cbn; congruence. Qed.
+
+Lemma keyval_eq a b :
+  keyval a = true -> keyval b = true -> key_eqb a b = true -> dkey_eqb (to_dv a) (to_dv b) = true.
+Proof.
+  destruct a, b; cbn [keyval key_eqb to_dv dkey_eqb]; try congruence; try (intros _ _ H; exact H).
+  intros Ha Hb H. apply bytes_eqb_eq in Ha, Hb, H. subst. apply bytes_eqb_eq. reflexivity.
+Qed.
+
+Section Leaves.
+  Variable uc : bytes -> option bytes.
+  Variable tc : bytes -> option (bytes * bytes).
+
+  Lemma url_ok_conv s : url_ok uc s = true -> uc s = Some s.
+  Proof.
+    unfold url_ok. destruct (uc s) as [o|]; [|discriminate].
+    intro H. apply bytes_eqb_eq in H. subst. reflexivity.
+  Qed.
+
+  Lemma mod_nat_of_N (n : nat) (w : N) :
+    0 < w -> N.of_nat n mod w = 0 -> (n mod N.to_nat w = 0)%nat.
+  Proof.
+    intros Hw H. rewrite <- (Nat2N.id n) at 1. rewrite <- N2Nat.inj_mod. rewrite H. reflexivity.
+  Qed.
+
+  Lemma wide_conv T w data n :
+    0 < w -> bytes_wfb data = true -> N.of_nat (length data) mod w = 0 ->
+    conv uc tc n (SArr T data) = Some (UTyped T (bytes_to_slice w data)) ->
+    typed_bytes T (bytes_to_slice w data) = slice_to_bytes w (bytes_to_slice w data) ->
+    array_dv T data = DArr T data ->
+    exists x, conv uc tc n (SArr T data) = Some x /\ to_dv x = array_dv T data /\ has_hole x = false.
+  Proof.
+    intros Hw Hwf Hm Hc Ht Ha. eexists. split; [exact Hc|]. split; [|reflexivity].
+    cbn [to_dv]. rewrite Ht, Ha.
+    rewrite slice_to_bytes_of_bytes_to_slice_exact; [reflexivity|exact Hw| |].
+    - apply bytes_wfb_wf. exact Hwf.
+    - apply mod_nat_of_N; assumption.
+  Qed.
+
+  Lemma array_conv t data n :
+    array_ok uc t data = true ->
+    exists x, conv uc tc n (SArr t data) = Some x /\ to_dv x = array_dv t data /\ has_hole x = false.
+  Proof.
+    unfold array_ok. intro H. repeat (apply orb_true_iff in H as [H|H]).
+    - apply N.eqb_eq in H. subst. eexists. split; [reflexivity|]. split; reflexivity.
+    - apply N.eqb_eq in H. subst. eexists. split; [reflexivity|]. split; reflexivity.
+    - apply andb_true_iff in H as [H Hu]. apply N.eqb_eq in H. subst.
+      apply url_ok_conv in Hu. cbn. unfold rid_value. rewrite Hu.
+      eexists. split; [reflexivity|]. split; reflexivity.
+    - apply andb_true_iff in H as [H Hm]. apply andb_true_iff in H as [Hw Hwf].
+      apply N.eqb_eq in Hm. apply negb_true_iff in Hw. apply N.eqb_neq in Hw.
+      unfold wide_width in *.
+      destruct (N.eqb_spec t AT_Uint16); [subst; apply (wide_conv AT_Uint16 2); try assumption; try reflexivity|].
+      destruct (N.eqb_spec t AT_Int16); [subst; apply (wide_conv AT_Int16 2); try assumption; try reflexivity|].
+      cbn [orb] in *.
+      destruct (N.eqb_spec t AT_Uint32); [subst; apply (wide_conv AT_Uint32 4); try assumption; try reflexivity|].
+      destruct (N.eqb_spec t AT_Int32); [subst; apply (wide_conv AT_Int32 4); try assumption; try reflexivity|].
+      cbn [orb] in *.
+      destruct (N.eqb_spec t AT_Uint64); [subst; apply (wide_conv AT_Uint64 8); try assumption; try reflexivity|].
+      destruct (N.eqb_spec t AT_Int64); [subst; apply (wide_conv AT_Int64 8); try assumption; try reflexivity|].
+      destruct (N.eqb_spec t AT_Float64); [subst; apply (wide_conv AT_Float64 8); try assumption; try reflexivity|].
+      cbn [orb] in *.
+      destruct (N.eqb_spec t AT_Int8); [subst; apply (wide_conv AT_Int8 1); try assumption; try reflexivity|].
+      contradiction.
+    - apply andb_true_iff in H as [H Hs]. apply andb_true_iff in H as [H Hm].
+      apply andb_true_iff in H as [H Hwf]. apply N.eqb_eq in H, Hm. subst.
+      eexists. split; [reflexivity|]. split; [|reflexivity].
+      cbn [to_dv]. unfold typed_bytes. change (typed_width AT_Float32) with 4.
+      change (AT_Float32 =? AT_Float32) with true.
+      rewrite iter_tie_float32.
+      + rewrite slice_to_bytes_of_bytes_to_slice_exact; [reflexivity|reflexivity| |].
+        * apply bytes_wfb_wf. exact Hwf.
+        * apply (mod_nat_of_N _ 4); [reflexivity|exact Hm].
+      + apply Forall_forall. intros f Hf. rewrite forallb_forall in Hs.
+        apply negb_true_iff. apply Hs. exact Hf.
+  Qed.
+
+  Lemma stringlike_conv t data n :
+    stringlike_ok uc t data = true ->
+    exists x, conv uc tc n (SStr t data) = Some x /\ to_dv x = array_dv t data /\ has_hole x = false.
+  Proof.
+    unfold stringlike_ok. intro H. apply orb_true_iff in H as [H|H].
+    - apply N.eqb_eq in H. subst. eexists. split; [reflexivity|]. split; reflexivity.
+    - apply andb_true_iff in H as [H Hu]. apply N.eqb_eq in H. subst.
+      apply url_ok_conv in Hu. cbn. unfold rid_value. rewrite Hu.
+      eexists. split; [reflexivity|]. split; reflexivity.
+  Qed.
+
+  Lemma time_conv_ok key s n :
+    time_ok tc key s = true ->
+    exists x, conv uc tc n (STime s) = Some x /\ to_dv x = DTime s /\ has_hole x = false /\
+              (key = true -> keyval x = true).
+  Proof.
+    unfold time_ok. cbn [conv]. destruct (tc s) as [[i o]|].
+    - intro H. apply andb_true_iff in H as [Ho Hi]. apply bytes_eqb_eq in Ho. subst.
+      eexists. split; [reflexivity|]. split; [reflexivity|]. split; [reflexivity|].
+      intro Hk. subst. cbn in Hi. cbn [keyval]. exact Hi.
+    - intros _. eexists. split; [reflexivity|]. split; [reflexivity|]. split; [reflexivity|]. reflexivity.
+  Qed.
+
+  Lemma step_value e sc st :
+    event_scalar e = Some sc -> step uc tc st e = on_scalar uc tc sc st.
+  Proof. destruct e; cbn [event_scalar]; intro H; inversion H; subst; reflexivity. Qed.
+
+  Lemma leaf_conv p e :
+    leaf_ok uc tc p e = true ->
+    exists sc d, event_scalar e = Some sc /\ event_dv e = Some d /\
+      forall n, exists x, conv uc tc n sc = Some x /\ to_dv x = d /\ has_hole x = false /\
+                          (p = PKey -> keyval x = true).
+  Proof.
+    intro H. destruct e; cbn [leaf_ok] in H; try discriminate;
+      try (do 2 eexists; split; [reflexivity|]; split; [reflexivity|]; intro n;
+           eexists; split; [reflexivity|]; split; [reflexivity|]; split; [reflexivity|];
+           intro Hp; subst; try reflexivity; discriminate).
+    - (* ENegInt *)
+      apply andb_true_iff in H as [H0 Hk]. apply negb_true_iff in H0.
+      do 2 eexists. split; [reflexivity|]. split; [reflexivity|]. intro k.
+      cbn [event_dv]. rewrite H0. unfold negint_scalar. rewrite H0.
+      destruct (n <=? max_int64) eqn:Hm.
+      + eexists. split; [reflexivity|]. split; [reflexivity|]. split; [reflexivity|]. reflexivity.
+      + eexists. split; [reflexivity|]. split; [reflexivity|]. split; [reflexivity|].
+        intro Hp. subst. cbn in Hk. congruence.
+    - (* EBigInt *) destruct v; do 2 eexists; (split; [reflexivity|]); (split; [reflexivity|]); intro n;
+        eexists; (split; [reflexivity|]); (split; [reflexivity|]); (split; [reflexivity|]);
+        intro Hp; subst; discriminate.
+    - (* EBigFloat *) destruct v; do 2 eexists; (split; [reflexivity|]); (split; [reflexivity|]); intro n;
+        eexists; (split; [reflexivity|]); (split; [reflexivity|]); (split; [reflexivity|]);
+        intro Hp; subst; discriminate.
+    - (* EBigDecimal *) destruct v; do 2 eexists; (split; [reflexivity|]); (split; [reflexivity|]); intro n;
+        eexists; (split; [reflexivity|]); (split; [reflexivity|]); (split; [reflexivity|]);
+        intro Hp; subst; discriminate.
+    - (* ENan *)
+      do 2 eexists. split; [reflexivity|]. split; [reflexivity|]. intro n.
+      eexists. split; [reflexivity|]. split; [destruct signaling; vm_compute; reflexivity|].
+      split; [reflexivity|]. intro Hp; subst; discriminate.
+    - (* EUid *)
+      do 2 eexists. split; [reflexivity|]. split; [reflexivity|]. intro n.
+      cbn [conv]. rewrite H. eexists. split; [reflexivity|]. split; [reflexivity|]. split; reflexivity.
+    - (* ETime *)
+      do 2 eexists. split; [reflexivity|]. split; [reflexivity|]. intro n.
+      destruct (time_conv_ok (is_key p) s n H) as [x [Hc [Hd [Hh Hk]]]].
+      exists x. split; [exact Hc|]. split; [exact Hd|]. split; [exact Hh|].
+      intro Hp. subst. apply Hk. reflexivity.
+    - (* EArray *)
+      do 2 eexists. split; [reflexivity|]. split; [reflexivity|]. intro n.
+      destruct (is_key p) eqn:Hkp.
+      + apply N.eqb_eq in H. subst. eexists. split; [reflexivity|]. split; [reflexivity|]. split; reflexivity.
+      + destruct (array_conv t data n H) as [x [Hc [Hd Hh]]].
+        exists x. split; [exact Hc|]. split; [exact Hd|]. split; [exact Hh|].
+        intro Hp. subst. discriminate.
+    - (* EStringArray *)
+      do 2 eexists. split; [reflexivity|]. split; [reflexivity|]. intro n.
+      destruct (is_key p) eqn:Hkp.
+      + apply N.eqb_eq in H. subst. eexists. split; [reflexivity|]. split; [reflexivity|]. split; reflexivity.
+      + destruct (stringlike_conv t data n H) as [x [Hc [Hd Hh]]].
+        exists x. split; [exact Hc|]. split; [exact Hd|]. split; [exact Hh|].
+        intro Hp. subst. discriminate.
+    - (* EMedia *)
+      apply andb_true_iff in H as [Hk _].
+      do 2 eexists. split; [reflexivity|]. split; [reflexivity|]. intro n.
+      eexists. split; [reflexivity|]. split; [reflexivity|]. split; [reflexivity|].
+      intro Hp; subst; discriminate.
+  Qed.
+End Leaves.
